@@ -21,10 +21,7 @@ from .corpus import CORPUS
 VERIF = os.path.dirname(os.path.dirname(os.path.dirname(os.path.abspath(__file__))))
 
 # refactorings the analysis does not follow (it answers ANALYSIS-ERROR, exit 2, on them -- never a VIOLATION): DESIGN 10.9
-UNHANDLED_REFACTORINGS = {
-    "r13-3": "the three 'earliest with ties' scans are merged into one helper fed with generator expressions, have_event dispatches through a getattr table and "
-             "decide_next_event selects with min(key=...): the scan registry and the event-type configuration are not resolved through these (DESIGN 10.13)",
-}
+UNHANDLED_REFACTORINGS = {}      # (r13-3 was listed here until its helper-fed scans were followed, DESIGN 10.13)
 
 
 def _analyse(pid, root):
